@@ -69,6 +69,17 @@ Theorem C10_asc_ground_pbc : forall N chain min_s max_s H z, asc_to_quso N chain
 Proof. exact asc_ground_pbc. Qed.
 Print Assumptions C10_asc_ground_pbc.
 
+(* two spins with periodic boundary: the closing coupling is the key (0, 1) again and replaces the open chain's coupling *)
+Theorem C10_asc_value_pbc2 : forall chain min_s max_s H, asc_to_quso 2 chain min_s max_s true = Ok H ->
+  forall z, spin_env z -> eval z (tm H) == asc_strength chain min_s max_s 1 * (z 0%nat * z 1%nat).
+Proof. exact asc_value_pbc2. Qed.
+Print Assumptions C10_asc_value_pbc2.
+Theorem C10_asc_ground_pbc2 : forall chain min_s max_s H z, asc_to_quso 2 chain min_s max_s true = Ok H ->
+  0 < min_s -> 0 < max_s -> spin_env z -> (forall z', spin_env z' -> eval z (tm H) <= eval z' (tm H)) ->
+  z 0%nat * z 1%nat == 1.
+Proof. exact asc_ground_pbc2. Qed.
+Print Assumptions C10_asc_ground_pbc2.
+
 (* ---- BILP: minimise c.x subject to S x = b (integer data) ---- *)
 Theorem C10_bilp_value : forall c S b A B Qf, bilp_to_qubo c S b A B = Ok Qf ->
   (forall Sj bj, In (Sj, bj) (combine S b) -> length Sj = length c) ->
